@@ -229,7 +229,9 @@ def circle_segment_from_three_points(x0, x1, x2):
     len_v2 = norm(v2)
     len_v0 = norm(v0)
     theta  = np.arctan2(norm(np.cross(v0,v2)), np.dot(v0,v2)) # angle in [0,pi]; accurate also near half turns (arccos is not)
-    if not np.all([np.sign(i)==np.sign(j) or abs(i-j) < state.controlpoint_absolute_tolerance for (i,j) in zip(w2,normal)]):
+    # w2 and normal are both perpendicular to the plane of the circle: they point the same way
+    # exactly when the short arc from x0 to x2 is the one through x1 (scale independent test)
+    if np.dot(w2, normal) < 0:
         theta = 2*pi - theta
         normal = -normal
 
